@@ -281,7 +281,7 @@ Prealloc(w, ev) ==
                       !.merged = [h \in w.issued \cup hs |-> IF h \in hs THEN TRUE ELSE w.merged[h]]]
   IN [w |-> [w1 EXCEPT !.peak = Max(w.peak, Cardinality(NotDead(w)) + ev.n)],
       f |-> (IF dup THEN {F("C01", "handle not fresh", ev.hs)} ELSE {})
-            \cup (IF ~ev.ok THEN {F("C02", "batch deletion of entities that are all alive failed", ev.n)} ELSE {})]
+            \cup (IF "ok" \in DOMAIN ev /\ ~ev.ok THEN {F("C02", "batch deletion of entities that are all alive failed", ev.n)} ELSE {})]
 
 Delete(w, ev) ==
   LET ok == ~DeadOrUnknown(w, ev.h) IN
